@@ -94,6 +94,10 @@ pub struct World<T: E> {
   iters: Vec<Option<It<T>>>,
   ishadow: Vec<Option<std::collections::VecDeque<i64>>>,
   irange: Vec<Option<(usize, usize)>>,
+  /// identities handed out by iterator i so far
+  iyield: Vec<Vec<u32>>,
+  /// plain-data classes: the values the vector held when iterator i was created
+  ibefore: Vec<Vec<u32>>,
   iscript: Vec<Option<String>>,
   shadow_ok: bool,
   pub out: String,
@@ -141,6 +145,8 @@ impl<T: E> World<T> {
       iters: vec![],
       ishadow: vec![],
       irange: vec![],
+      iyield: vec![],
+      ibefore: vec![],
       iscript: vec![],
       shadow_ok: true,
       out: String::new(),
@@ -162,6 +168,8 @@ impl<T: E> World<T> {
       self.ishadow.push(None);
       self.irange.push(None);
       self.iscript.push(None);
+      self.iyield.push(vec![]);
+      self.ibefore.push(vec![]);
     }
   }
   fn put(&mut self, v: usize, mv: MiniVec<T>, sh: Vec<i64>) {
@@ -617,8 +625,13 @@ impl<T: E> World<T> {
         need!(a);
         free!(b);
         let src = self.vref(a);
+        let (calls0, want) = (T::clone_calls(), src.len() as u64);
         match lib(|| src.clone()) {
           Ok(mv) => {
+            let calls1 = T::clone_calls();
+            if calls0 != u64::MAX && calls1.wrapping_sub(calls0) != want {
+              self.monitor(format!("clone_not_called:{}of{}", calls1.wrapping_sub(calls0), want));
+            }
             let sh = self.shadow[a].clone().unwrap_or_default();
             self.put(b, mv, sh);
           }
@@ -1219,6 +1232,9 @@ impl<T: E> World<T> {
         }
         let bs = self.bound(t(3), v);
         let be = self.bound(t(4), v);
+        if !T::TRACKED {
+          self.ibefore[i] = { let x = self.vref(v); let _u = User::enter(); x.iter().map(|e| e.id()).collect() };
+        }
         let mv = self.vref(v);
         let len = mv.len();
         // expected acceptance per std: resolve without wrap-around
@@ -1263,6 +1279,9 @@ impl<T: E> World<T> {
         if self.iters[i].is_some() {
           self.emit(k, name, "skip", "-");
           return;
+        }
+        if !T::TRACKED {
+          self.ibefore[i] = { let x = self.vref(v); let _u = User::enter(); x.iter().map(|e| e.id()).collect() };
         }
         let mv = self.vref(v);
         let p = Self::pred_box(t(3));
@@ -1323,12 +1342,60 @@ impl<T: E> World<T> {
               if T::TRACKED && !e.valid() {
                 self.monitor("garbage_yielded".into());
               }
+              self.iyield[i].push(e.id());
             }
             if !is_filter {
               if let Some(sh) = self.ishadow[i].as_mut() {
                 let exp = if front { sh.pop_front() } else { sh.pop_back() };
                 if self.shadow_ok && exp != x.as_ref().map(|e| e.pay()) {
                   self.monitor(format!("iter_protocol:{}", name));
+                }
+              }
+            }
+          }
+          Err(_) => out = "panic",
+        }
+      }
+      "nth" => {
+        // Iterator::nth through whatever implementation the iterator provides
+        let i = n(1);
+        needi!(i);
+        let kk = n(2);
+        if kk > 64 {
+          self.emit(k, name, "skip", "-");
+          return;
+        }
+        let it = self.iters[i].as_mut().unwrap();
+        let is_filter = matches!(it, It::Filter(..));
+        let r = lib(|| match it {
+          It::Drain(_, d) => d.nth(kk),
+          It::Splice(_, d) => d.nth(kk),
+          It::Filter(_, d) => d.nth(kk),
+          It::Into(d) => d.nth(kk),
+        });
+        match r {
+          Ok(x) => {
+            ret = match &x {
+              Some(e) => format!("s{}", e.id()),
+              None => "n".into(),
+            };
+            if let Some(e) = &x {
+              if T::TRACKED && !e.valid() {
+                self.monitor("garbage_yielded".into());
+              }
+              self.iyield[i].push(e.id());
+            }
+            if !is_filter {
+              if let Some(sh) = self.ishadow[i].as_mut() {
+                let mut exp = None;
+                for _ in 0..=kk {
+                  exp = sh.pop_front();
+                  if exp.is_none() {
+                    break;
+                  }
+                }
+                if self.shadow_ok && exp != x.as_ref().map(|e| e.pay()) {
+                  self.monitor("iter_protocol:nth".into());
                 }
               }
             }
@@ -1390,8 +1457,12 @@ impl<T: E> World<T> {
           return;
         }
         match self.iters[i].as_ref().unwrap() {
-          It::Into(d) => match lib(|| It::Into(d.clone())) {
-            Ok(c) => {
+          It::Into(d) => match { let calls0 = T::clone_calls(); let want = d.len() as u64; lib(|| It::Into(d.clone())).map(|c| (c, calls0, want)) } {
+            Ok((c, calls0, want)) => {
+              let calls1 = T::clone_calls();
+              if calls0 != u64::MAX && calls1.wrapping_sub(calls0) != want {
+                self.monitor(format!("clone_not_called:{}of{}", calls1.wrapping_sub(calls0), want));
+              }
               self.iters[j] = Some(c);
               self.ishadow[j] = self.ishadow[i].clone();
             }
@@ -1424,8 +1495,22 @@ impl<T: E> World<T> {
           out = "panic";
           self.shadow_ok = false;
         }
+        let handed = std::mem::take(&mut self.iyield[i]);
         if let Some(v) = vi {
           self.borrowed[v] = false;
+          // a value that was handed out must not be observable through the vector again (for the
+          // tracked classes the ledger says so; for the plain-data classes compare the values)
+          if !T::TRACKED && r.is_ok() && !handed.is_empty() {
+            if let Some(vec) = self.vecs[v].as_ref() {
+              let seen: Vec<u32> = { let _u = User::enter(); vec.iter().map(|x| x.id()).collect() };
+              let before = std::mem::take(&mut self.ibefore[i]);
+              let cnt = |l: &Vec<u32>, x: u32| l.iter().filter(|y| **y == x).count();
+              // (values may legitimately repeat in a plain-data vector: count them)
+              if let Some(d) = handed.iter().find(|h| cnt(&seen, **h) + cnt(&handed, **h) > cnt(&before, **h)) {
+                self.monitor(format!("handed_out_still_exposed:{}", d));
+              }
+            }
+          }
           let range = self.irange[i].take();
           if name == "dropit" && r.is_ok() && (kind == 0 || kind == 1) && self.shadow_ok {
             // std oracle: Vec::drain / Vec::splice on the shadow; the replacement is what the scripted
